@@ -115,3 +115,21 @@ Proof.
   apply (scc_ok_spec g cs Hcl) in Hok. intros l1 c l2 u v E Hu Hp.
   exact (spec_deps_before g cs l1 c l2 u v Hcl Hok E Hu Hp).
 Qed.
+
+(** The same for one observed call of sum_products (verdict 0 of [sp_order_check]): everything a
+    nonterminal depends on TRANSITIVELY (a path in the nonterminal graph of the grammar as it is at
+    the time of the call) was handed to the per-component solver in the same or an earlier block. *)
+Require Import Fggs.Model.SCCOrder.
+Theorem sp_order_check_transitive nts rules blocks keys :
+  sp_order_check (nts, rules, blocks, keys) = 0 ->
+  forall l1 c l2 x y, blocks = l1 ++ c :: l2 -> In x c -> path (ntgraph nts rules) x y ->
+    In y c \/ In y (concat l1).
+Proof.
+  unfold sp_order_check.
+  destruct (closed (ntgraph nts rules)) eqn:Hc; cbn [negb]; [|discriminate].
+  destruct (forallb (mem keys) nts) eqn:Hk; cbn [negb]; [|discriminate].
+  destruct (scc_ok (ntgraph nts rules) blocks) eqn:Hok; cbn [negb]; [|discriminate].
+  intros _ l1 c l2 x y E Hx Hp.
+  apply (scc_ok_spec (ntgraph nts rules) blocks Hc) in Hok.
+  exact (spec_deps_before (ntgraph nts rules) blocks l1 c l2 x y Hc Hok E Hx Hp).
+Qed.
